@@ -11,10 +11,14 @@ from arraylib import *
 from c01_lib import *
 import c01_model
 
-GEOMS_EXH_QUICK = [  # (nd, np, zmode, hashsize, ncontent, nfiles)
+# extra geometries (7th field): 'hist' = the synced state is reached through a history (touches, rewrites, deletes, adds,
+# several syncs); 'twins' = the same, aimed at stripes mixing touched and rewritten files; 'rehash' = a hash migration is
+# in progress (snapraid rehash after the sync; the fix model does not cover the migration: snapshot oracle only)
+GEOMS_EXH_QUICK = [  # (nd, np, zmode, hashsize, ncontent, nfiles[, kind])
     (2, 1, False, None, 1, 6), (3, 1, False, 4, 2, 8), (2, 2, False, None, 2, 7), (3, 2, False, None, 1, 10),
     (4, 2, False, 4, 1, 12), (2, 3, True, None, 1, 6), (3, 3, False, None, 1, 9), (2, 4, False, None, 1, 6),
     (2, 6, False, 8, 1, 5), (4, 1, False, None, 3, 20), (3, 3, True, 4, 1, 8), (2, 5, False, None, 1, 4),
+    (3, 2, False, None, 1, 8, 'hist'), (2, 2, False, None, 1, 4, 'twins'), (3, 1, False, None, 1, 5, 'twins'), (3, 2, False, None, 1, 8, 'rehash'), (2, 1, False, 8, 1, 6, 'rehash'),
 ]
 GEOMS_EXH_THOROUGH = GEOMS_EXH_QUICK + [
     (4, 3, False, None, 1, 14), (3, 4, False, None, 1, 10), (4, 4, False, 4, 1, 12), (3, 5, False, None, 1, 8), (3, 6, False, None, 1, 8),
@@ -27,11 +31,28 @@ class Trial:
 
     def __init__(self, chk, binary, model, geom, seed):
         self.chk, self.binary, self.model, self.geom, self.seed = chk, binary, model, geom, seed
-        nd, np_, z, hs, nc, nf = geom
+        nd, np_, z, hs, nc, nf = geom[:6]
+        self.kind = geom[6] if len(geom) > 6 else None
         self.rng = random.Random(seed)
         self.arr = Array(binary, nd=nd, np_=np_, zmode=z, hashsize=hs, ncontent=nc)
-        self.recipe = populate(self.arr, self.rng, nf)
+        if self.kind == 'twins':
+            # the same file names and sizes on every disk: every stripe holds a block of every disk
+            self.recipe = []
+            base = 1700000000 * 10**9
+            for k in range(nf):
+                size = self.rng.choice([1024, 2048, 3000, 1500])
+                for d in self.arr.disks:
+                    self.arr.write(d, 'f%d' % k, self.rng.randbytes(size), mtime_ns=base + k * 10**9 + self.rng.randrange(10**9))
+                    self.recipe.append(('file', d, 'f%d' % k, size))
+        else:
+            self.recipe = populate(self.arr, self.rng, nf)
         r = self.arr.run('sync', '--test-force-murmur3')
+        if r.rc == 0 and self.kind in ('hist', 'twins'):
+            r = self.history()
+        if r.rc == 0 and self.kind == 'rehash':
+            r = self.arr.run('rehash')
+            self.recipe.append(('rehash', r.rc))
+            model = None
         self.ok = (r.rc == 0)
         self.ntrials = self.nmodel = self.nblocks_damaged = 0
         self.samples = []
@@ -45,11 +66,54 @@ class Trial:
             chk.violation('sync_inv', 'after the initial sync: %s' % e, {'geom': geom, 'seed': seed, 'recipe': self.recipe})
             self.ok = False
         self.stripes, self.order = self.arr.stripes(self.st)
-        self.mb = c01_model.ModelSide(self.arr, self.st, model) if model else None
+        self.mb = c01_model.ModelSide(self.arr, self.st, model) if (model and self.kind != 'rehash') else None
+
+    def history(self):
+        """1-2 rounds of changes followed by a full sync: files touched (same bytes, new time-stamp), rewritten with the same or
+        another size, removed, added; the final state is again 'synced cleanly'"""
+        a, rng = self.arr, self.rng
+        r = None
+        for rd in range(rng.randint(1, 2)):
+            files = sorted((d, rel) for (d, rel), v in a.snapshot_data().items() if v[0] == 'f' and v[4] == 1)
+            first_changed = False
+            for (d, rel) in files:
+                p = a.path(d, rel)
+                c = rng.random()
+                if self.kind == 'twins':
+                    # the first disk's copy really changes, the others are only touched (or the other way round)
+                    really = (d == a.disks[0]) if rd % 2 == 0 else (d == a.disks[-1])
+                    c = 0.5 if really else 0.1
+                    if rng.random() < 0.25:
+                        c = 0.95
+                if c < 0.3:
+                    st = os.stat(p)
+                    os.utime(p, ns=(st.st_mtime_ns + 10**9, st.st_mtime_ns + 10**9))
+                    a.note_version(d, rel)
+                    self.recipe.append(('touch', d, rel))
+                elif c < 0.6:
+                    st = os.stat(p)
+                    size = st.st_size if rng.random() < 0.7 else rng.choice(SIZES)
+                    a.write(d, rel, rng.randbytes(size), mtime_ns=st.st_mtime_ns + 2 * 10**9)
+                    self.recipe.append(('rewrite', d, rel, size))
+                elif c < 0.7:
+                    a.remove(d, rel)
+                    self.recipe.append(('remove', d, rel))
+            for k in range(rng.randint(0, 2)):
+                d = rng.choice(a.disks)
+                size = rng.choice(SIZES)
+                a.write(d, 'n%d_%d' % (rd, k), rng.randbytes(size))
+                self.recipe.append(('add', d, 'n%d_%d' % (rd, k), size))
+            for (d, n) in list(a.store):
+                a.store[(d, os.fsencode(n).decode('latin1'))] = a.store[(d, n)]
+            r = a.run('sync', '--force-empty')
+            self.recipe.append(('sync', r.rc))
+            if r.rc != 0:
+                break
+        return r
 
     def geomstr(self):
-        nd, np_, z, hs, nc, nf = self.geom
-        return 'nd=%d np=%d%s hash=%s content_copies=%d' % (nd, np_, ' z' if z else '', hs or 16, nc)
+        nd, np_, z, hs, nc, nf = self.geom[:6]
+        return 'nd=%d np=%d%s hash=%s content_copies=%d%s' % (nd, np_, ' z' if z else '', hs or 16, nc, (' ' + self.kind) if self.kind else '')
 
     # -------------------------------------------------------------------------------------------
     def judge(self, label, desc, replay):
@@ -293,7 +357,14 @@ def main(tier, replay=None):
         T = Trial(chk, binary, model, g, seed)
         if T.ok:
             nd, np_ = g[0], g[1]
-            if nd + np_ <= 8 or tier != 'quick':
+            if len(g) > 6 and tier == 'quick':
+                # history / rehash geometries: whole-device losses only (single devices and pairs), plus patterns
+                devs = devices(T.arr)
+                for k in (1, 2):
+                    if k <= np_:
+                        for subset in itertools.combinations(devs, k):
+                            T.one_subset(subset, T.rng.getrandbits(32))
+            elif nd + np_ <= 8 or tier != 'quick':
                 T.exhaustive(rounds if (nd + np_ <= 6) else 1)
             for _ in range(npat):
                 if len(chk.violations) > 8:
@@ -307,7 +378,7 @@ def main(tier, replay=None):
             samples += T.samples[:1]
     chk.cov.update({'evaluations': tot['trials'], 'distinct_nontrivial': tot['trials'],
                     'rule': 'arrays %s (nd, np, z-mode, hash size, content copies, files) synced cleanly; EVERY subset of <= np devices (data disk dir / parity level) damaged by a random kind among %s / %s (+ loss of all but one content copy), and %d sampled per-stripe patterns per array with <= np damaged blocks in every stripe; each trial = exact restore, damage, real `fix`, real `check`, independent snapshot comparison (bytes, mtime with the collide rule, links, hard links, dirs) + independent parity checker; non-trivial = trials' % (
-                        [g[:4] for g in geoms], DATA_KINDS, PAR_KINDS, npat),
+                        [g[:4] + g[6:] for g in geoms], DATA_KINDS, PAR_KINDS, npat),
                     'arrays': tot['arrays'], 'blocks_damaged_in_patterns': tot['blocks'], 'fix_runs_replayed_by_model': tot['model'],
                     'traces_validated_against_impl': tot['model']})
     chk.cov['samples'] = samples
